@@ -39,6 +39,15 @@ func vpHasPrefixBytes(b []byte, s string) bool {
 // open: malformed numbers, hex literals, unterminated strings, unicode escapes
 // in identifiers.
 func vpRefTokenize(text []byte) (toks []vpTok, cut bool) {
+	toks, cut, _ = vpRefTokenize2(text)
+	return
+}
+
+// vpRefTokenize2 additionally reports invalid=true when it stopped at a
+// lexical error the statement does name: a numeric literal immediately
+// followed by an identifier character (this includes 0x.., the grammar has no
+// hexadecimal literals).
+func vpRefTokenize2(text []byte) (toks []vpTok, cut bool, invalid bool) {
 	pos := 0
 	for {
 		lb := false
@@ -50,20 +59,20 @@ func vpRefTokenize(text []byte) (toks []vpTok, cut bool) {
 			} else if !(vpRefWhiteMust(ch) || vpRefWhiteMay(ch)) {
 				break
 			} else if vpRefWhiteMay(ch) {
-				return toks, true // editions disagree on this code point
+				return toks, true, false // editions disagree on this code point
 			}
 			pos += size
 		}
 		if pos >= len(text) {
 			toks = append(toks, vpTok{SK_EndOfFile, pos, pos, lb})
-			return toks, false
+			return toks, false, false
 		}
 		rest := text[pos:]
 		c := rest[0]
 		switch {
 		case vpIsDigit(c) || (c == '.' && len(rest) > 1 && vpIsDigit(rest[1])):
 			if c == '0' && len(rest) > 1 && (rest[1] == 'x' || rest[1] == 'X') {
-				return toks, true
+				return toks, true, true
 			}
 			// extent of the literal: digits/underscores [. digits] [e[+-]digits]
 			i := 0
@@ -86,13 +95,13 @@ func vpRefTokenize(text []byte) (toks []vpTok, cut bool) {
 					k++
 				}
 				if k == j {
-					return toks, true // exponent without digits: malformed, extent not specified
+					return toks, true, false // exponent without digits: malformed, extent not specified
 				}
 				i = k
 			}
 			for k := 0; k < i; k++ {
 				if rest[k] == '_' {
-					return toks, true // separators: well-formedness is C12's subject
+					return toks, true, false // separators: well-formedness is C12's subject
 				}
 			}
 			toks = append(toks, vpTok{SK_NumberLiteral, pos, pos + i, lb})
@@ -101,7 +110,7 @@ func vpRefTokenize(text []byte) (toks []vpTok, cut bool) {
 			if pos < len(text) {
 				ch, _ := vpDecode(text[pos:])
 				if IsIdentifierStart(ch) {
-					return toks, true
+					return toks, true, true
 				}
 			}
 		case c == '\'' || c == '"':
@@ -115,7 +124,7 @@ func vpRefTokenize(text []byte) (toks []vpTok, cut bool) {
 					break
 				}
 				if rest[i] == '\\' {
-					return toks, true // escape sequences: C13's subject
+					return toks, true, false // escape sequences: C13's subject
 				}
 				if vpRefLineBreak(ch) {
 					break
@@ -123,7 +132,7 @@ func vpRefTokenize(text []byte) (toks []vpTok, cut bool) {
 				i += size
 			}
 			if !closed {
-				return toks, true
+				return toks, true, false
 			}
 			toks = append(toks, vpTok{SK_StringLiteral, pos, pos + i, lb})
 			pos += i
@@ -134,7 +143,7 @@ func vpRefTokenize(text []byte) (toks []vpTok, cut bool) {
 				for i < len(rest) {
 					ch2, s2 := vpDecode(rest[i:])
 					if ch2 == '\\' {
-						return toks, true
+						return toks, true, false
 					}
 					if !IsIdentifierPart(ch2) {
 						break
